@@ -3,7 +3,9 @@ package main
 import (
 	"bytes"
 	"fmt"
+	"io"
 	"strconv"
+	"strings"
 
 	"github.com/WICG/webpackage/go/internal/cbor"
 	"github.com/WICG/webpackage/go/signedexchange/internal/bigendian"
@@ -116,6 +118,31 @@ func init() {
 		}
 		return "ok " + toHex(buf.Bytes())
 	})
+	// encoder output fed to the deterministic-CBOR check: everything the encoder emits must be accepted
+	register("cbor.encdet", func(args []string) (res string) {
+		n, err := strconv.Atoi(args[0])
+		if err != nil {
+			panic("bad-op")
+		}
+		var buf bytes.Buffer
+		s := &scriptState{toks: args[1:]}
+		s.runCalls(n, cbor.NewEncoder(&buf))
+		if len(s.toks) != 0 {
+			panic("bad-op")
+		}
+		if s.err != nil {
+			return "err " + errClass(s.err)
+		}
+		defer func() {
+			if r := recover(); r != nil {
+				res = "reject " + toHex(buf.Bytes())
+			}
+		}()
+		if err := cbor.Deterministic(buf.Bytes()); err != nil {
+			return "reject " + toHex(buf.Bytes())
+		}
+		return "accept " + toHex(buf.Bytes())
+	})
 	decN := func(f func(d *cbor.Decoder) (uint64, error)) handler {
 		return func(args []string) string {
 			bs := ofHex(args[0])
@@ -147,6 +174,64 @@ func init() {
 			return "err"
 		}
 		return fmt.Sprintf("ok %s %d", toHex([]byte(v)), len(bs)-r.Len())
+	})
+	// several decode calls on ONE decoder over different kinds of io.Reader; after the last call the number of bytes taken from
+	// the underlying reader must be exactly the bytes of the decoded items (no read-ahead, no short-read confusion)
+	register("cbor.dec.seq", func(args []string) string {
+		bs := ofHex(args[2])
+		cr := &countingReader{r: bytes.NewReader(bs)}
+		var r io.Reader
+		switch args[0] {
+		case "bytes":
+			r = bytes.NewReader(bs) // has ReadByte; consumption measured through Len below
+		case "plain":
+			r = struct{ io.Reader }{cr}
+		case "one":
+			r = struct{ io.Reader }{&oneByteReader{cr}}
+		case "limited":
+			r = &io.LimitedReader{R: cr, N: int64(len(bs))}
+		default:
+			panic("bad-op")
+		}
+		d := cbor.NewDecoder(r)
+		out := []string{}
+		for i, c := range args[1] {
+			var err error
+			var v string
+			switch c {
+			case 'u':
+				var n uint64
+				n, err = d.DecodeUint()
+				v = fmt.Sprintf("%d", n)
+			case 'a':
+				var n uint64
+				n, err = d.DecodeArrayHeader()
+				v = fmt.Sprintf("%d", n)
+			case 'm':
+				var n uint64
+				n, err = d.DecodeMapHeader()
+				v = fmt.Sprintf("%d", n)
+			case 'b':
+				var b []byte
+				b, err = d.DecodeByteString()
+				v = toHex(b)
+			case 't':
+				var t string
+				t, err = d.DecodeTextString()
+				v = toHex([]byte(t))
+			default:
+				panic("bad-op")
+			}
+			if err != nil {
+				return fmt.Sprintf("err %d %s", i, strings.Join(out, ","))
+			}
+			out = append(out, v)
+		}
+		used := cr.n
+		if br, ok := r.(*bytes.Reader); ok {
+			used = len(bs) - br.Len()
+		}
+		return fmt.Sprintf("ok %d %s", used, strings.Join(out, ","))
 	})
 	register("cbor.det", func(args []string) (res string) {
 		// a panic is a legal way of not accepting (the repository's tests require it)
@@ -180,3 +265,25 @@ func init() {
 		return fmt.Sprintf("ok %d", bigendian.Decode3BytesUint([3]byte{bs[0], bs[1], bs[2]}))
 	})
 }
+
+type countingReader struct {
+	r io.Reader
+	n int
+}
+
+func (c *countingReader) Read(p []byte) (int, error) {
+	n, err := c.r.Read(p)
+	c.n += n
+	return n, err
+}
+
+// hands out one byte per Read call (short reads are legal for an io.Reader)
+type oneByteReader struct{ r io.Reader }
+
+func (o *oneByteReader) Read(p []byte) (int, error) {
+	if len(p) == 0 {
+		return 0, nil
+	}
+	return o.r.Read(p[:1])
+}
+
